@@ -54,14 +54,11 @@ func convertPathToURL(path string, baseDir string, baseURL *url.URL) (string, er
 	if err != nil {
 		return "", fmt.Errorf("Cannot make relative path for %q: %v", path, err)
 	}
-	var result *url.URL
+	// The relative path is a file name, not a URL reference: characters such as
+	// '#', '?' and '%' must be percent-encoded, not interpreted.
+	result := &url.URL{Path: filepath.ToSlash(relPath)}
 	if baseURL != nil {
-		result, err = baseURL.Parse(filepath.ToSlash(relPath))
-	} else {
-		result, err = url.Parse(filepath.ToSlash(relPath))
-	}
-	if err != nil {
-		return "", fmt.Errorf("Failed to construct URL for %s. err: %v", path, err)
+		result = baseURL.ResolveReference(result)
 	}
 	return result.String(), nil
 }
